@@ -7,7 +7,7 @@ From Coq Require Import List ZArith NArith Bool String.
 From Scalibr Require Import Semantic.Cmp Semantic.LexPad Semantic.Bytes Semantic.Str Semantic.Generated_Tables.
 From Scalibr Require Import Semantic.Semver Semantic.SemverProofs Semantic.Nuget Semantic.NugetProofs.
 From Scalibr Require Import Semantic.Cran Semantic.CranProofs Semantic.Rubygems Semantic.RubygemsProofs.
-From Scalibr Require Import Semantic.Debian Semantic.DebianProofs Semantic.Redhat Semantic.RedhatProofs.
+From Scalibr Require Import Semantic.Debian Semantic.DebianProofs Semantic.DebianLoopProofs Semantic.Redhat Semantic.RedhatProofs Semantic.RedhatLoopProofs.
 From Scalibr Require Import Semantic.Pypi Semantic.PypiProofs Semantic.PypiParse Semantic.PypiParseProofs Semantic.Packagist Semantic.PackagistProofs.
 From Scalibr Require Import Semantic.Alpine Semantic.AlpineProofs Semantic.AlpineParse Semantic.AlpineParseProofs Semantic.Maven Semantic.MavenProofs Semantic.MavenParseProofs.
 Import ListNotations.
@@ -280,6 +280,12 @@ Theorem debian_eq_equiv : forall u v w : debian,
 Proof. exact (proj2 cmp_debian_laws_on_valid). Qed.
 Print Assumptions debian_eq_equiv.
 
+(* the model used above compares token lists; the Go source interleaves both strings in one loop.
+   [deb_loop_cmp] is that loop written out literally, and it computes the same function: *)
+Theorem debian_loop_equiv : forall a b : bytes, deb_loop_cmp a b = deb_str_cmp a b.
+Proof. exact deb_loop_cmp_equiv. Qed.
+Print Assumptions debian_loop_equiv.
+
 (* every accepted string is a valid structure *)
 Theorem debian_parse_valid : forall (s : bytes) (v : debian), parse_debian s = Ok v -> valid_debian v = true.
 Proof. exact parse_debian_valid. Qed.
@@ -341,6 +347,13 @@ Theorem redhat_eq_equiv_all_strings : forall a b c : bytes,
   compare_str_redhat a b = Ok Eq -> compare_str_redhat a c = compare_str_redhat b c.
 Proof. exact redhat_str_eq_equiv_lemma. Qed.
 Print Assumptions redhat_eq_equiv_all_strings.
+
+(* the model used above compares token lists; [rh_loop_component_cmp] is the Go loop of
+   compareRedHatComponents written out literally (trim, tilde, caret, end, digit / letter runs, leading zeros,
+   length, strcmp), and it computes the same function: *)
+Theorem redhat_loop_equiv : forall a b : bytes, rh_loop_component_cmp a b = rh_component_cmp a b.
+Proof. exact rh_loop_component_equiv. Qed.
+Print Assumptions redhat_loop_equiv.
 
 (* labelled TEST: rpmvercmp rules (rpm.org "rpm-version(7)"): '~' before everything, '^' after the
    base version but before any further segment, digits beat letters, leading zeros ignored,
